@@ -30,6 +30,7 @@ HARNESS = 'solve'
 COQ_IMPORTS = 'From VRP Require Import Base.Tac Model.Core Spec.Valid Model.Homes Model.Evolution.'
 MODEL_TARGETS = ['theories/Spec/Valid.vo', 'theories/Model/Evolution.vo']
 MODEL_NEEDS_IMPL = True
+SUBSTREAMS = ['c07_loop']          # the loops driven with user-supplied pluggable pieces (tools/props/c07_loop.py)
 SHARD = 24
 SIZES = {'quick': 24, 'thorough': 80, 'search': 40}          # number of PROBLEMS (each expands to K + 3 runs)
 CAP = {'quick': 90, 'thorough': 260}
@@ -313,6 +314,28 @@ def _filter(viols):
     return keep
 
 
+def break_only_tour(s, k):
+    """tour #k of the document has no activity besides departure / arrival / (optional) breaks, and at least one break"""
+    try:
+        kinds = [a.get('type') for st in s['tours'][k]['stops'] for a in st['activities']]
+    except Exception:
+        return False
+    return 'break' in kinds and all(x in ('departure', 'arrival', 'break') for x in kinds)
+
+
+def account_violations(c, s, items):
+    """c02._violations with one more structural class: a tour that serves nothing but an optional break (finding C07-F3: a ruin
+    takes the last job out of a tour and leaves its break behind, the job is re-inserted elsewhere, OptionalBreakState::
+    remove_invalid_breaks keeps a break that stands at the departure location) - also in uninterrupted runs"""
+    items = list(items)
+    out = c02._violations(c, s, items)
+    if len(out) == len(items):
+        for t, x in zip(items, out):
+            if t[0] == 'ATourEmpty' and x.get('class') == 'empty-tour' and isinstance(t[1], int) and break_only_tour(s, t[1]):
+                x['class'] = 'tour-serves-only-an-optional-break'
+    return out
+
+
 def _note_seen(c):
     l = c.get('c07') or {}
     if 'K' in l:
@@ -356,7 +379,7 @@ def oracle(c, impl):
         if tours:
             v.append({'class': 'insertion-after-quota-reached', 'what': 'the quota was true at the very first poll but the document has tours %s' % json.dumps(tours)[:200]})
     if e2e.unsupported(c, s):
-        v += c02._violations(c, s, e2e.py_accounting(c, s))
+        v += account_violations(c, s, e2e.py_accounting(c, s))
     return _filter(v)
 
 
@@ -365,7 +388,7 @@ def oracle_model(c, impl, model):
     if s is None or e2e.unsupported(c, s) or c['config']['max_generations'] < 1:
         return []
     viols = model[0]
-    v = c02._violations(c, s, e2e.coq_viols(viols, 'A'))
+    v = account_violations(c, s, e2e.coq_viols(viols, 'A'))
     v += c01.oracle_model(c, impl, viols)
     v += c03.oracle_model(c, impl, (viols,))
     for t in e2e.coq_viols(viols, 'P'):
@@ -456,16 +479,27 @@ def extra_coverage():
 
 
 MANIFEST_TEXT = ('Machine-checked proof (Coq, no axioms) over an executable model of the loops that poll the computation quota and the '
-                 'termination criteria (InsertionHeuristic::process, EvolutionSimulator::run initial phase, Iterative::run with '
-                 'Telemetry/MaxGeneration/CompositeTermination, Solver::solve, DecomposeSearch inner loop): for EVERY quota oracle the '
-                 'insertion loop returns with `required` drained and every job in exactly one home, the evolution returns a solution '
-                 'whenever one initial solution was built (else the documented error), no generation starts after the quota fired, '
-                 'and the generation count is exactly max_generations + 1 when nothing else stops the run (the clause "never more '
-                 'than the configured maximum" is refuted; known finding). Tied to /repo by exhaustive fault enumeration: for each '
-                 'generated problem the real solver is re-run with the quota firing at every poll index 0..K+1, every returned '
-                 'document is checked by the verified Coq checker valid_b, and generations / outcome / polls are diffed against the '
-                 'Coq model evaluated on the poll positions of the uninterrupted run.')
-MANIFEST_NOTE = ('Trusted: Coq kernel + vm_compute; e2e rendering; harness (CountingQuota, backtrace poll labels, deterministic layout). '
-                 'Wall-clock criteria and thread interleavings are oracles / not modelled. Known finding: max_generations = N >= 1 runs '
-                 'N + 1 generations. Violation classes that are recorded findings of C01/C02/C03 are inherited, not re-reported.')
+                 'termination criteria (InsertionHeuristic::process, EvolutionSimulator::run initial phase incl. supplied individuals / '
+                 'operator order / initial.max_size, Iterative::run as the code has it - termination and quota test, selected(), '
+                 'diversify_many / search_many of a hyper-heuristic that is an ORACLE returning any list per generation, also the empty '
+                 'one, on_generation in every iteration - Telemetry on_generation / on_result with track_population, MaxGeneration / '
+                 'CompositeTermination, Greedy population, Solver::solve, DecomposeSearch inner loop, CompositeTimeQuota): for EVERY quota '
+                 'and offspring oracle the insertion loop returns with `required` drained and every job in exactly one home, the evolution '
+                 'returns a solution whenever the population it starts from is not empty (else the documented error), no generation '
+                 'starts after the quota fired, loop iterations = search_many = add_all = population.on_generation calls = generations '
+                 'counted (an empty generation neither stalls the counter nor loses an individual), metrics.generations is the index of '
+                 'the last generation, and the generation count is exactly max_generations + 1 when nothing else stops the run (the '
+                 'clause "never more than the configured maximum" is refuted: finding C07-F1; "a positive time limit that is hit still '
+                 'yields a solution" is refuted when more than 5 % of the limit passed between building the configuration and running '
+                 'it: finding C07-F2, proved under that hypothesis). Tied to /repo by (a) exhaustive fault enumeration: for each generated '
+                 'problem the real solver is re-run with the quota firing at every poll index 0..K+1, every returned document is checked '
+                 'by the verified Coq checker valid_b, and generations / outcome / polls are diffed against the Coq model; (b) sub-stream '
+                 'c07_loop: the real EvolutionConfigBuilder / VrpConfigBuilder + Iterative strategy driven with scripted user-supplied '
+                 'HyperHeuristic / HeuristicPopulation / Termination / InitialOperator pieces (0, 1, many offspring per generation), the '
+                 'complete sequence of calls on them with arguments, iterations, telemetry and result diffed against the same model.')
+MANIFEST_NOTE = ('Trusted: Coq kernel + vm_compute; e2e rendering; harness (CountingQuota, backtrace poll labels, deterministic layout, '
+                 'scripted pluggable pieces and their event log). Wall-clock criteria and thread interleavings are oracles / not modelled; '
+                 'CompositeTimeQuota is modelled by reading (crate-private). Known findings: max_generations = N >= 1 runs N + 1 '
+                 'generations (C07-F1); max_time with a late start returns "cannot find any solution" (C07-F2). Violation classes that are '
+                 'recorded findings of C01/C02/C03 are inherited, not re-reported.')
 MANIFEST_TECHNIQUE = 'Coq proof over executable loop model + exhaustive quota-fault enumeration on the real solver checked by a verified Coq checker'
